@@ -320,11 +320,13 @@ fn validate_checksum(data: &[u8], expected_checksum: &str) -> Result<()> {
 /// uses V1 MIME format based on content type headers.
 pub fn is_v1_mime_response(raw_response: &[u8]) -> bool {
     let response_str = String::from_utf8_lossy(raw_response);
-    let first_512 = if response_str.len() > 512 {
-        &response_str[..512]
-    } else {
-        &response_str
-    };
+    // Byte 512 can fall inside a multi-byte character (the lossy conversion
+    // turns each invalid byte into a 3-byte U+FFFD): back up to a boundary.
+    let mut end = response_str.len().min(512);
+    while !response_str.is_char_boundary(end) {
+        end -= 1;
+    }
+    let first_512 = &response_str[..end];
 
     // Look for MIME headers indicating multipart content
     first_512.to_lowercase().contains("content-type:")
